@@ -238,18 +238,25 @@ def doUncompressed (st : St) : List Bool → St × Bool
   | [] => (st, false)
   | c :: cs =>
     let k : Nat := if st.curpos < 0 then st.curline.length - 1 else st.curpos.toNat
-    let st1 := { st with curline := fill st.curline k (k + 1) c, curpos := st.curpos + 1 }
+    let st1 := { st with curline := fill st.curline k (k + 1) c, curpos := CcittCode.uncStep st.curpos }
     let (st2, skip) := flushLine st1
     if skip then (st2, true) else doUncompressed st2 cs
+
+/-- A terminator `"T" + bits` of the UNCOMPRESSED table: the new colour `int(bits[uncColorIdx])` and the
+pixel data `bits[uncDataFrom:]` (indices into the string that starts with the marker `T`; regenerated). -/
+def uncSplit (bits : List Bool) : Option (Bool × List Bool) :=
+  match bits.drop (CcittCode.uncColorIdx - 1) with
+  | [] => none
+  | c :: _ => some (c, bits.drop (CcittCode.uncDataFrom - 1))
 
 /-- `_parse_uncompressed(bits)` (the optional T.6 extension; "untested" according to the source). -/
 def parseUncompressed (st : St) : Option Sym → Except Err (St × Sig)
   | none => .error .invalidData
   | some (.unc u) =>
     if u.term then
-      match u.bits with
-      | [] => .error .unmodelled
-      | c :: rest =>
+      match uncSplit u.bits with
+      | none => .error .unmodelled
+      | some (c, rest) =>
         let (st', skip) := doUncompressed { st with acc := .mode, color := c } rest
         .ok ({ st' with acc := .mode, node := modeTrie }, if skip then .byteSkip else .cont)
     else
@@ -303,7 +310,7 @@ def feedBytes (st : St) : List UInt8 → Except Err St
 /-- `CCITTFaxDecoder(width, bytealign, reversed)` after `reset()` -/
 def initSt (width : Nat) (bytealign reversed : Bool) : St :=
   { width := width, bytealign := bytealign, reversed := reversed,
-    refline := List.replicate width true, curline := List.replicate width CcittCode.blankPixel,
+    refline := List.replicate width CcittCode.initBlank, curline := List.replicate width CcittCode.blankPixel,
     curpos := CcittCode.resetCurpos, color := CcittCode.resetColor,
     n1 := 0, n2 := 0, acc := .mode, node := modeTrie, buf := [] }
 
